@@ -76,6 +76,8 @@ func clusterGen(r *simrt.Rand, tier string, mix []weighted) *hx.Program {
 	p.P["minisr"] = int64(1 + r.Intn(int(p.P["rf"])))
 	if r.Pct(40) {
 		p.P["minisr"] = 1
+	} else if r.Pct(12) {
+		p.P["minisr"] = p.P["rf"] + 1 // more than there are replicas: nothing can ever be committed
 	}
 	// (the follower's idle wait is ReplicaMaxIdleWait minus a jitter of up to 2 s: below 2 s followers spin)
 	p.P["lag_ms"] = []int64{1000, 2500, 5000}[r.Intn(3)]
@@ -376,6 +378,54 @@ func runCluster(h *h3, hooks clusterHooks) *cluster {
 				}
 				h.s.Count("fault.network_cut")
 			}
+		case "cutf":
+			// cut off a follower (both ways) from everybody else
+			var fs []*simNode
+			ld := c.leader()
+			for _, x := range h.nodes {
+				if x.up && x != ld {
+					fs = append(fs, x)
+				}
+			}
+			if len(fs) > 0 {
+				f := fs[int(op.Arg(0, 0))%len(fs)]
+				h.s.Logf("cut off follower %s", f.id)
+				for _, x := range h.nodes {
+					if x != f {
+						h.bus.Cut(f.node, x.node)
+						h.bus.Cut(x.node, f.node)
+					}
+				}
+				h.s.Count("fault.network_cut")
+			}
+		case "isolate":
+			// cut the partition leader off from the other servers (clients still reach it)
+			if ld := c.leader(); ld != nil {
+				h.s.Logf("isolate leader %s", ld.id)
+				for _, x := range h.nodes {
+					if x != ld {
+						h.bus.Cut(ld.node, x.node)
+						h.bus.Cut(x.node, ld.node)
+					}
+				}
+				h.s.Count("fault.network_cut")
+			}
+		case "crashl":
+			if ld := c.leader(); ld != nil {
+				h.s.Logf("crash leader %s", ld.id)
+				h.crashNode(ld.idx)
+			}
+		case "restartall":
+			for _, x := range h.nodes {
+				if !x.up {
+					h.s.Logf("restart %s", x.id)
+					x.restarts++
+					h.s.Count("fault.server_restart")
+					if err := h.startNode(x.idx); err != nil && len(h.s.Panics) == 0 {
+						h.oc.Trouble = "restart: " + err.Error()
+					}
+				}
+			}
 		case "heal":
 			h.bus.HealAll()
 			h.s.Logf("heal")
@@ -416,8 +466,8 @@ func runCluster(h *h3, hooks clusterHooks) *cluster {
 
 // dumpRaft writes the committed metadata operations into the run's log (verbose runs).
 func (c *cluster) dumpRaft() {
-	if !c.verbose {
-		return
+	if true {
+		return // (the engine dumps the Raft log at the end of every verbose run)
 	}
 	for _, e := range c.h.cluster.Log {
 		if e.Type != raft.LogCommand {
@@ -519,4 +569,62 @@ func (c *cluster) isrChanges(replica string) (shrinks, expands []uint64) {
 		}
 	}
 	return
+}
+
+// raftView is the partition's leader and in-sync set according to the metadata operations committed
+// up to and including index upTo (what the controller knows, as opposed to what a server has applied).
+func (c *cluster) raftView(upTo uint64) (leader string, isr map[string]bool) {
+	isr = map[string]bool{}
+	for _, e := range c.h.cluster.Log {
+		if e.Index > upTo {
+			break
+		}
+		if e.Type != raft.LogCommand {
+			continue
+		}
+		op := &proto.RaftLog{}
+		if op.Unmarshal(e.Data) != nil {
+			continue
+		}
+		switch op.Op {
+		case proto.Op_CREATE_STREAM:
+			if op.CreateStreamOp.Stream.Name == clStream {
+				p := op.CreateStreamOp.Stream.Partitions[0]
+				leader = p.Leader
+				isr = map[string]bool{}
+				for _, r := range p.Isr {
+					isr[r] = true
+				}
+			}
+		case proto.Op_SHRINK_ISR:
+			delete(isr, op.ShrinkISROp.ReplicaToRemove)
+		case proto.Op_EXPAND_ISR:
+			isr[op.ExpandISROp.ReplicaToAdd] = true
+		case proto.Op_CHANGE_LEADER:
+			if isr[op.ChangeLeaderOp.Leader] {
+				leader = op.ChangeLeaderOp.Leader
+			}
+		}
+	}
+	return
+}
+
+// staleView reports whether the server that sent this ack acted on metadata older than what was
+// committed at that instant: it is no longer the leader, or the committed in-sync set has members it
+// does not know about.
+func (c *cluster) staleView(o *ackObs) bool {
+	leader, isr := c.raftView(o.raftIndex)
+	if leader != c.h.nodes[o.from].id {
+		return true
+	}
+	known := map[string]bool{}
+	for _, r := range o.isr {
+		known[r] = true
+	}
+	for r := range isr {
+		if !known[r] {
+			return true
+		}
+	}
+	return false
 }
